@@ -1,12 +1,76 @@
 import ScenicModel.Gen.IntCodec
 import ScenicModel.Gen.Divergence
 import ScenicModel.Model.Replay
+import ScenicModel.Model.Sample
 import Driver.Util
 /-! line protocol for the codec model (C18); the table is the one regenerated from /repo -/
 namespace Driver.C18
 open Scenic.Codec Driver
 
 def T := Scenic.Gen.intTable
+
+/-! #### sample DAG protocol
+nodes: `;`-separated  `c` | `p:<ty>` | `d:<dep,dep,..>` | `m:<idx>:<opt,opt,..>`   (ty ∈ n f i b y v o)
+vals : `;`-separated, one per node:  `-` | `n` | `i<int>` | `b0`/`b1` | `f<hex>` | `y<hex>` | `v<hex>` | `o<hex>` -/
+open Scenic.Sample in
+def parseTy : String → Option Ty
+  | "n" => some .none | "f" => some .float | "i" => some .int | "b" => some .bool
+  | "y" => some .bytes | "v" => some .vector | "o" => some .orientation | _ => none
+
+def parseNats (s : String) : Option (List Nat) :=
+  if s == "" then some [] else (s.splitOn ",").mapM String.toNat?
+
+open Scenic.Sample in
+def parseNode (s : String) : Option Node :=
+  match s.splitOn ":" with
+  | ["c"] => some .const
+  | ["p", ty] => (parseTy ty).map .prim
+  | ["d", deps] => (parseNats deps).map fun ds => .det ds 0
+  | ["m", idx, opts] => do
+    let i ← idx.toNat?; let os ← parseNats opts; pure (.mux i os)
+  | _ => none
+
+open Scenic.Sample in
+def parseVal (s : String) : Option Val :=
+  if s == "-" || s == "n" then some .none else
+  let tag := s.take 1
+  let body := (s.drop 1).toString
+  match tag.toString with
+  | "i" => body.toInt?.map .int
+  | "b" => some (.bool (body == "1"))
+  | "f" => (fromHex body).map .float
+  | "y" => (fromHex body).map .bytes
+  | "v" => (fromHex body).map .vector
+  | "o" => (fromHex body).map .orientation
+  | _ => none
+
+open Scenic.Sample in
+def showVal : Val → String
+  | .none => "n" | .int z => s!"i{z}" | .bool b => if b then "b1" else "b0"
+  | .float r => "f" ++ toHex r | .bytes r => "y" ++ toHex r | .vector r => "v" ++ toHex r
+  | .orientation r => "o" ++ toHex r
+
+open Scenic.Sample in
+def mkCtx (nodes : List Node) (vals : List Val) : Ctx × (Nat → Val) :=
+  let nodes' := (List.range nodes.length).zipWith (fun i n => match n with
+    | .det ds _ => Node.det ds i | n => n) nodes
+  let vf : Nat → Val := fun i => vals.getD i .none
+  ({ t := T, g := nodes', eval := fun op _ => vf op, cv := vf }, vf)
+
+open Scenic.Sample in
+def sampleOp (rd : Bool) (nodes roots vals : String) (hex : String) : String :=
+  match (nodes.splitOn ";").mapM parseNode, parseNats roots, (vals.splitOn ";").mapM parseVal, fromHex hex with
+  | some ns, some rs, some vs, some bs =>
+    let (c, vf) := mkCtx ns vs
+    if rd then
+      match readSample c rs bs with
+      | none => "err"
+      | some (env, rest) =>
+        let ents := (List.range ns.length).filterMap fun i =>
+          (env.lookup i).map fun v => s!"{i}={showVal v}"
+        s!"ok {toHex rest} {String.intercalate ";" ents}"
+    else showOpt toHex (writeSample c vf rs)
+  | _, _, _, _ => "bad-op"
 
 def handle : List String → String
   | ["wint", z] => match z.toInt? with
@@ -25,6 +89,8 @@ def handle : List String → String
   | ["rbool", h] => match fromHex h with
     | some bs => showOpt (fun (p : Bool × Bytes) => s!"{if p.1 then 1 else 0} {toHex p.2}") (readBool T bs)
     | none => "bad-op"
+  | ["wsample", nodes, roots, vals] => sampleOp false nodes roots vals "-"
+  | ["rsample", nodes, roots, vals, hex] => sampleOp true nodes roots vals hex
   | ["sdiv", tol, e, a] => match parseRat tol, parseRat e, parseRat a with
     | some tol, some e, some a =>
       if Scenic.Replay.scalarDiverged Scenic.Gen.divergenceUsesAbs tol e a then "1" else "0"
